@@ -44,7 +44,21 @@ impl Ctx {
             }
         }
         let mb = Metablock::new(self.content.clone(), &[self.km.sk(by)]).unwrap();
-        let v = mb.signatures[0].value().as_bytes().to_vec();
+        let mut v = mb.signatures[0].value().as_bytes().to_vec();
+        // encodings of variable length (ECDSA's DER pair of integers): the signer's standing signature is an unusually
+        // SHORT one - sign again until an encoding below the common 70..72 bytes turns up (about one in a hundred)
+        if !fresh && matches!(self.km.pk(by).scheme(), in_toto::crypto::SignatureScheme::EcdsaP256Sha256) {
+            for _ in 0..20000 {
+                if v.len() < 70 {
+                    break;
+                }
+                let again = Metablock::new(self.content.clone(), &[self.km.sk(by)]).unwrap();
+                let w = again.signatures[0].value().as_bytes().to_vec();
+                if w.len() < v.len() {
+                    v = w;
+                }
+            }
+        }
         self.cache.insert(by.to_string(), v.clone());
         v
     }
